@@ -16,9 +16,9 @@ ASSUMPTIONS = ["reference model: dict of totals = initial value + occurrences", 
 REQUIRED_FEATURES = ["empty_batch", "only_non_keys", "non_key_colliding", "non_key_empty_bucket", "all_keys_collide", "scalar_nonzero_init",
                      "array_init", "large_key", "cross_history_comparisons", "depth2"]
 BOUNDS = {"quick": "8 key sets x moduli {default,1,2,3,4,64} x initial {default, 0, 4, per-key array} (+ int8/uint8/uint64/python-list keys, int32 counts on 4 sets); "
-                   "all count histories of depth <= 2 over ~32 batches (empty, every single universe element, ordered pairs over keys / colliding and "
+                   "all count histories of depth <= 2 over ~32 batches and depth 3 with the third batch from the 12 simplest (empty, every single universe element, ordered pairs over keys / colliding and "
                    "free non-keys, heavy repetition, only non-keys, large keys)",
-          "thorough": "depth 3 (depth-3 batches from the 12 simplest), 12 key sets"}
+          "thorough": "12 key sets, depth 3 over the full batch alphabet"}
 
 U = [0, 1, 2, 3, 5, 7, -1, 2 ** 62, 2 ** 62 + 1]
 KEYSETS_Q = [[0], [1, 3], [0, 1, 2], [5, -1, 2], [3, 0, 5, 1], [2 ** 62, 1], [7, 2 ** 62 + 1, 2 ** 62], [-1]]
@@ -30,7 +30,7 @@ TYPED = [([0, 1, 2], "int8"), ([1, 3], "uint8"), ([5, 2, 7], "uint64"), ([3, 0, 
 
 def shards(tier):
     ks = KEYSETS_Q if tier == "quick" else KEYSETS_T
-    out = [{"keys": k, "kdt": "int64", "init": i, "depth": 2 if tier == "quick" else 3} for k in ks for i in INITS]
+    out = [{"keys": k, "kdt": "int64", "init": i, "depth": 3} for k in ks for i in INITS]
     out += [{"keys": k, "kdt": d, "init": i, "depth": 2} for (k, d) in TYPED for i in ("default", "array")]
     return out
 
@@ -132,7 +132,7 @@ def run_shard(shard, tier, acc):
         frontier = [[]]
         for dep in range(1, depth + 1):
             nxt = []
-            alphabet = bs if dep <= 2 else bs[:12]
+            alphabet = bs if (dep <= 2 or tier != "quick") else bs[:12]
             for hist in frontier:
                 for b in alphabet:
                     h2 = hist + [b]
